@@ -105,7 +105,7 @@ func newCompositeAdapter(w *vw.World, cfg *vw.CtlConfig) (*compositeAdapter, err
 		stopCh:         make(chan struct{}),
 	}
 	pc.customize, err = customize.NewCustomizeManager(cc.Name, pc.enqueueParentObject, cc, w.DynClient,
-		&dynamicinformer.SharedInformerFactory{}, parentInformers, parentResources, pc.logger, common.CompositeController)
+		relatedFactory(w, cfg), parentInformers, parentResources, pc.logger, common.CompositeController)
 	if err != nil {
 		return nil, err
 	}
@@ -113,7 +113,7 @@ func newCompositeAdapter(w *vw.World, cfg *vw.CtlConfig) (*compositeAdapter, err
 	if cfg.CustomizeHook {
 		pc.customize.VerifSetHook(hooks.NewVerifHook(w.Hooks, vw.CustomizeURL, common.CustomizeHook, cfg.Mode(), false, 0, nil))
 		for _, d := range w.Sim.Defs() {
-			if d.Resource == "controllerrevisions" {
+			if d.Resource == "controllerrevisions" || cfg.RealRelatedInformers {
 				continue
 			}
 			pc.customize.VerifSetRelatedInformer(d.GVR(), w.Informers[d.Resource])
@@ -195,4 +195,11 @@ func (d *c20CompositeDriver) Running() map[string][2]string {
 		out[n] = [2]string{fmt.Sprintf("%p", pc), string(b)}
 	}
 	return out
+}
+
+func relatedFactory(w *vw.World, cfg *vw.CtlConfig) *dynamicinformer.SharedInformerFactory {
+	if cfg.RealRelatedInformers {
+		return dynamicinformer.NewSharedInformerFactory(w.DynClient, 10*time.Minute)
+	}
+	return &dynamicinformer.SharedInformerFactory{}
 }
